@@ -216,3 +216,5 @@ def run(ctx):
     ctx.cov["rule"] = ("leg A: concatenate/stack of 1-4 COO members (empty members, length-0 axes, negative axes), triu/tril for k in [-5,5], diagonal over "
                        "all offsets in [-n-1,n+1] and both axis orders, diagonalize: model vs implementation on representation; leg C: the same functions "
                        "plus take, concat, axis=None, format mixes COO/GCXS(any compressed axes), narrow index dtypes, mixed fills vs NumPy; distinct by hash")
+    import extra_ops  # operation tables closing the measured coverage gaps (tools/coverage_audit.py; coverage/API_COVERAGE.md)
+    extra_ops.run(ctx, PID)
